@@ -360,12 +360,12 @@ func FieldAccess(v ssa.Value) (typ, field string, ok bool) {
 
 // CallInfo describes the callee of a call instruction.
 type CallInfo struct {
-	Pkg    string // package path of the callee ("" for builtins / dynamic)
-	Recv   string // receiver named type (no pointer star), "" for functions
-	Name   string
-	Static *ssa.Function // non-nil for static calls with known function
-	Iface  bool          // interface method invocation
-	Dyn    bool          // call of a func value
+	Pkg     string // package path of the callee ("" for builtins / dynamic)
+	Recv    string // receiver named type (no pointer star), "" for functions
+	Name    string
+	Static  *ssa.Function // non-nil for static calls with known function
+	Iface   bool          // interface method invocation
+	Dyn     bool          // call of a func value
 	Builtin bool
 }
 
